@@ -113,6 +113,12 @@ def step (t : List String) : String :=
         let (t, _) ← pf ts
         let (x, y) := cylNormalTotal (fun r => r == 0) fp ft r (Float.cos t) (Float.sin t)
         pure s!"{fmtFloat x} {fmtFloat y}"
+    | "hit" :: ts => do
+        let (c, ts) ← pf ts
+        let (k, ts) ← pf ts
+        let (P, ts) ← pv ts
+        let (S, _) ← pv ts
+        pure s!"{fmtFloat (conicHitS Float.sqrt c k P S)} {fv (conicHit Float.sqrt c k P S)}"
     | "offpolar" :: ts => do
         let (c, ts) ← pf ts
         let (k, ts) ← pf ts
